@@ -787,12 +787,12 @@ func (v Value) toReflectValue(typ reflect.Type) (reflect.Value, error) {
 		switch value := v.value.(type) {
 		case float32:
 			_, frac := math.Modf(float64(value))
-			if frac > 0 {
+			if frac > 0 || frac < 0 { // a fraction of either sign (NaN and the infinities are handled below)
 				return reflect.Value{}, fmt.Errorf("RangeError: %v to reflect.Kind: %v", value, kind)
 			}
 		case float64:
 			_, frac := math.Modf(value)
-			if frac > 0 {
+			if frac > 0 || frac < 0 { // a fraction of either sign (NaN and the infinities are handled below)
 				return reflect.Value{}, fmt.Errorf("RangeError: %v to reflect.Kind: %v", value, kind)
 			}
 		}
